@@ -67,27 +67,39 @@ def _rows(r):
     return [p for p in r.prints if isinstance(p, list) and p and p[0] == "R" and p[1] != "none"]
 
 
-def _stage_ab(ctx):
-    from bits.bips import bip340
-    import bits
-
-    quick = ctx.tier == "quick"
+def _run_models(tier):
+    """All TLC runs of stage A / B (no call into the library, safe to run beside the stage-C generation)."""
+    devs = []
     for cfgn, expect in (("S1_dev_nolen", "LenStrict"), ("S1_dev_noparity", "VerifyExact")):
         r = vlib.tlc("MC_Schnorr", f"MC_Schnorr_{cfgn}.cfg", workers=8, timeout=1200)
         if r.completed or r.invariant != expect:
             raise vlib.MachineryFailure(f"vacuity guard: deviation {cfgn} was not refuted through {expect} (got {r.invariant}):\n{r.error_text()[:600]}")
-        ctx.cov["stage_a"].append({"model": f"MC_Schnorr_{cfgn}.cfg", "constants": "named deviation of the verifier; TLC must find the counterexample",
-                                   "distinct_states": r.distinct, "states_generated": r.generated, "depth": r.depth,
-                                   "exhaustive": True, "refuted_invariant": r.invariant, "wall_s": round(r.wall, 1)})
-    curves = [("S1", "S1q")] if quick else [("S1", "S1t"), ("S2", "S2t"), ("S5", "S5t")]
-    last_rows = None
+        devs.append((cfgn, r))
+    curves = [("S1", "S1q")] if tier == "quick" else [("S1", "S1t"), ("S2", "S2t"), ("S5", "S5t")]
+    runs = []
     for cn, cfgname in curves:
-        c = SMALL[cn]
         cfg = f"MC_Schnorr_{cfgname}.cfg"
         with ThreadPoolExecutor(2) as ex:
             fa = ex.submit(vlib.tlc_ok, "MC_Schnorr", cfg, workers=16, timeout=3000, tag=f"c12a-{cn}-{os.getpid()}")
             fb = ex.submit(vlib.tlc_ok, "MC_Schnorr", cfg, workers=16, timeout=3000, native=True, tag=f"c12b-{cn}-{os.getpid()}")
-            ra, rb = fa.result(), fb.result()
+            runs.append((cn, cfg, fa.result(), fb.result()))
+    return devs, runs
+
+
+def _stage_ab(ctx, models):
+    """Book the model runs and replay the SHA-256 table into the retargeted code (main thread only: retarget() rebinds
+    the library's curve constants globally)."""
+    from bits.bips import bip340
+    import bits
+
+    devs, runs = models
+    for cfgn, r in devs:
+        ctx.cov["stage_a"].append({"model": f"MC_Schnorr_{cfgn}.cfg", "constants": "named deviation of the verifier; TLC must find the counterexample",
+                                   "distinct_states": r.distinct, "states_generated": r.generated, "depth": r.depth,
+                                   "exhaustive": True, "refuted_invariant": r.invariant, "wall_s": round(r.wall, 1)})
+    last_rows = None
+    for cn, cfg, ra, rb in runs:
+        c = SMALL[cn]
         ctx.stage_a(cfg, ra, constants=f"curve {cn} p={c['p']} b=7 n={c['n']}: sign d in 0..n+1 x msgs x aux; verify ALL (pk_x, r) in (0..p+1)^2, "
                                        f"s in 0..n+1 inside the invariant; wrong-length variants; toy hashes")
         for r, what in ((ra, "toy"), (rb, "sha256")):
@@ -370,9 +382,7 @@ def _selftests(ctx):
     for e, expect in probes:
         if verdicts[e["id"]] != expect:
             raise vlib.MachineryFailure(f"binding self-test: expected verdict {expect!r}, validator said {verdicts[e['id']]!r} for {json.dumps(e)[:200]}")
-    ctx.cov["stage_c"].append(dict(validator="Trace_Schnorr self-tests", official_vectors=len(vec), binding_probes=len(probes), **stats))
-    ctx.cov["states"] += stats.get("distinct", 0)
-    ctx.cov["transitions"] += stats.get("states", 0)
+    return dict(validator="Trace_Schnorr self-tests", official_vectors=len(vec), binding_probes=len(probes), **stats)
 
 
 def run(ctx):
@@ -385,14 +395,20 @@ def run(ctx):
     vlib.native_selftest()
     CHUNK[0] = 6 if ctx.tier == "quick" else 14
     rnd = random.Random(ctx.seed * 48271 + 12)
-    # the phases are independent: judge the secp256k1 events while TLC explores the small-curve models
-    with ThreadPoolExecutor(2) as ex:
+    # TLC runs (self-tests, small-curve models, judgement of the secp256k1 events) proceed in parallel threads; every call
+    # into the library happens in THIS thread: first the secp256k1 events, then the replay into the retargeted code
+    with ThreadPoolExecutor(3) as ex:
         fs = ex.submit(_selftests, ctx)
-        fc = ex.submit(lambda: (lambda ev: (ev, _validate(ev, "c12")))(_gen_c(ctx, rnd)))
-        _stage_ab(ctx)
-        fs.result()
-        ev, (verdicts, stats) = fc.result()
-    _report(ctx, ev, verdicts, "c12")
+        fm = ex.submit(_run_models, ctx.tier)
+        ev = _gen_c(ctx, rnd)
+        fc = ex.submit(_validate, ev, "c12")
+        verdicts, stats = fc.result()
+        _report(ctx, ev, verdicts, "c12")            # secp256k1 cases first in the replay files
+        _stage_ab(ctx, fm.result())
+        st = fs.result()
+        ctx.cov["stage_c"].append(st)
+        ctx.cov["states"] += st.get("distinct", 0)
+        ctx.cov["transitions"] += st.get("states", 0)
     ctx.stage_c("Trace_Schnorr (secp256k1)", len(ev), stats, sign_events=sum(1 for e in ev if e["op"] == "sign"),
                 verify_events=sum(1 for e in ev if e["op"] == "verify"))
     ctx.sample({"stage": "C", "event": {k: v for k, v in ev[0].items() if k != "id"}})
